@@ -628,8 +628,9 @@ impl RJudge<'_> {
         if rule == "validator-panic" {
             return detail.split_whitespace().collect::<Vec<_>>().join(" ");
         }
-        if rule == "nsec3-hard-limit-not-applied" {
-            // a matter of configuration reaching the validator, whatever else happened in the run
+        if rule == "nsec3-hard-limit-not-applied" || rule == "proof-records-missing" {
+            // a matter of configuration reaching the validator / of the shape of what is returned,
+            // whatever else happened in the run
             return detail.to_string();
         }
         let do_tag = if last.do_bit { "" } else { "|do0" };
@@ -653,7 +654,7 @@ impl RJudge<'_> {
     }
 
     fn report(&mut self, b: &Bench, steps: &[RStep], a: RAlarm, workload: &str) {
-        let needs_min = a.rule != "nsec3-hard-limit-not-applied" && (steps.len() > 1 || steps.last().is_some_and(|s| s.faults.len() > 1 || s.faults.iter().any(|f| f.fault.prims.len() > 1)));
+        let needs_min = a.rule != "nsec3-hard-limit-not-applied" && a.rule != "proof-records-missing" && (steps.len() > 1 || steps.last().is_some_and(|s| s.faults.len() > 1 || s.faults.iter().any(|f| f.fault.prims.len() > 1)));
         let min_steps = if needs_min { self.minimize(b, steps, &a.rule, &a.detail) } else { steps.to_vec() };
         let sig = self.signature(b, &a.rule, &a.detail, &min_steps);
         let (obs_json, ex_json, variant) = match run_rsteps(b, &self.attacker, &min_steps, &self.opts) {
